@@ -138,6 +138,7 @@ class Observer:
         self.index_oob = False     # an index outside its declared range was observed
         self.index_events = 0
         self.calls = 0
+        self.frame_checks = 0
         self.callee_stores = 0     # STOREs to argument/local executed at depth >= 2
         self.max_depth = 0
         self.ops_run = set()
@@ -248,6 +249,7 @@ class Observer:
         argsnap, named, args_id, ls_id, pc, nargs = act.pending
         act.pending = None
         self.total_frame_checks += 1
+        self.frame_checks += 1
         fn = act.fn.Name
         if len(args) != nargs:
             self._event("caller-args-changed", fn=fn, pc=pc, detail="argument count %d -> %d" % (nargs, len(args)),
